@@ -210,3 +210,17 @@ Proof.
   - unfold offdiag, sumR, sp_entry, suml, seg. cbn. rewrite Rabs_pos_eq by lra. lra.
   - unfold offdiag, sumR, sp_entry, suml, seg. cbn. rewrite Rabs_pos_eq by lra. lra.
 Qed.
+
+(* (1,0) is a right eigenvector of kr_s = [[2,-1],[0,1]] (eigenvalue 2): with b = (1,0), x0 = 0 every solver converges in one step *)
+Local Open Scope R_scope.
+Lemma kr_right_eigenvector :
+  let r0 := @zipw AR Rminus [1; 0] (@sp_apply AR kr_s [0; 0]) in
+  @sp_apply AR kr_s r0 = @vscale AR r0 2.
+Proof.
+  cbv zeta.
+  assert (E : @zipw AR Rminus [1; 0] (@sp_apply AR kr_s [0; 0]) = [1; 0]).
+  { unfold sp_apply, dmulv, sp_entry, suml, seg. cbn.
+    apply f_equal2; [ring | apply f_equal2; [ring | reflexivity]]. }
+  rewrite E. unfold sp_apply, dmulv, sp_entry, suml, seg. cbn.
+  apply f_equal2; [ring | apply f_equal2; [ring | reflexivity]].
+Qed.
